@@ -6,6 +6,8 @@ Scenario kinds (deterministic; the witness is the scenario):
   database entries (the KKT check builds a LagrangeMultipliers object at every stored point);
 * ``nodb-unit``: a preprocessed problem function without database, counter at its maximum - evaluating it at a new point must raise
   MaxIterReachedException instead of calling the original function;
+* ``doe``: a CustomDOE whose first sample completes last (and with a repeated sample), with 2 and 1 processes - the database must list the
+  distinct generated samples in generation order, each with the outputs of its own evaluation;
 * ``nodb-run``: a driver with use_database=False and max_iter = N - the original objective must be called at no more than N distinct points.
 """
 from __future__ import annotations
@@ -98,8 +100,57 @@ def run_nodb_run(algo, max_iter):
     return None
 
 
+DOE_SAMPLES = [[1.0, 6.0], [2.0, 5.0], [3.0, 4.0], [4.0, 3.0], [2.0, 5.0], [6.0, 1.0]]  # (sample 4 repeats sample 1)
+
+
+def _slow_first(x):
+    """Objective of the DOE scenario: the first generated sample completes last with two processes."""
+    import time
+
+    if abs(x[0] - DOE_SAMPLES[0][0]) < 1e-6:
+        time.sleep(0.6)
+    return float(x[0] + 10.0 * x[1])
+
+
+def _doe_problem():
+    from gemseo.algos.design_space import DesignSpace
+    from gemseo.algos.optimization_problem import OptimizationProblem
+    from gemseo.core.mdo_functions.mdo_function import MDOFunction
+
+    ds = DesignSpace()
+    ds.add_variable("x", 2, lower_bound=0.0, upper_bound=10.0)  # NOT the unit hypercube: unit samples differ from the physical ones
+    pb = OptimizationProblem(ds)
+    pb.objective = MDOFunction(_slow_first, "f")
+    return pb
+
+
+def run_doe(n_processes):
+    """A DOE records each distinct generated sample once, in generation order, with the outputs of its own evaluation."""
+    from gemseo.algos.doe.factory import DOELibraryFactory
+
+    logging.disable(logging.CRITICAL)
+    try:
+        pb = _doe_problem()
+        DOELibraryFactory().execute(pb, algo_name="CustomDOE", samples=np.array(DOE_SAMPLES), n_processes=n_processes)
+    finally:
+        logging.disable(logging.NOTSET)
+    expected = []
+    for smp in DOE_SAMPLES:
+        if smp not in expected:
+            expected.append(smp)
+    recorded = [[round(float(v), 9) for v in k.unwrap()] for k in pb.database]
+    values = [round(float(np.ravel(v["f"])[0]), 9) if "f" in v else None for v in pb.database.values()]
+    if recorded != expected or values != [round(a + 10.0 * b, 9) for a, b in expected]:
+        return {"what": "the DOE does not record the distinct generated samples in generation order with their own outputs", "n_processes": n_processes,
+                "generated": DOE_SAMPLES, "recorded_keys": recorded, "recorded_f": values}
+    return None
+
+
 def scenarios(kind):
-    if kind == "lagrange":
+    if kind == "doe":
+        for n in (2, 1):
+            yield {"kind": "doe", "n_processes": n}
+    elif kind == "lagrange":
         for k in (1, 3):
             yield {"kind": "lagrange-unit", "counter": k}
         for settings in ({"kkt_tol_abs": 1e-12}, {"kkt_tol_rel": 1e-12}):
@@ -112,6 +163,8 @@ def scenarios(kind):
 
 def _run(s):
     try:
+        if s["kind"] == "doe":
+            return run_doe(s["n_processes"])
         if s["kind"] == "lagrange-unit":
             return run_lagrange_unit(s["counter"])
         if s["kind"] == "lagrange-run":
@@ -128,6 +181,8 @@ def _kind_of(ob):
         return "lagrange"
     if ob.func.endswith(("ProblemFunction._compute_output", "ProblemFunction._compute_jacobian")) and "budget:no-evaluation" in ob.label:
         return "nodb"
+    if ob.func.endswith(("BaseDOELibrary._run", "BaseDOELibrary.__store_in_database", "BaseDOELibrary._evaluate_functions")):
+        return "doe"
     return None
 
 
@@ -155,6 +210,6 @@ def rerun(w):
 if __name__ == "__main__":
     import json
 
-    for kind in ("lagrange", "nodb"):
+    for kind in ("doe", "lagrange", "nodb"):
         for s in scenarios(kind):
             print(json.dumps({"scenario": s, "failure": _run(s)}, default=str))
